@@ -41,6 +41,19 @@ func SharedNames(o NameOpts) func(t *rapid.T) wm.Name {
 			if !n.Valid() {
 				n = suffix
 			}
+			// a look-alike: two adjacent labels joined into ONE label with a literal dot (or backslash)
+			// octet between them - reads the same once escapes are forgotten, is a different name
+			if !o.Plain && len(n) >= 2 && rapid.IntRange(0, 7).Draw(t, "lookalike") == 0 {
+				i := rapid.IntRange(0, len(n)-2).Draw(t, "joinat")
+				if len(n[i])+1+len(n[i+1]) <= 63 {
+					sep := rapid.SampledFrom([]byte{'.', '.', '\\'}).Draw(t, "joinwith")
+					j := append(append(append([]byte{}, n[i]...), sep), n[i+1]...)
+					m := append(wm.Name{}, n[:i]...)
+					m = append(m, j)
+					m = append(m, n[i+2:]...)
+					n = m.Clone()
+				}
+			}
 		} else {
 			n = Name(t, o)
 		}
